@@ -84,6 +84,27 @@ def rules_from_json(js):
     return [norm(from_text(x)) for x in js or []]
 
 
+def add_validated_field(rng, u):
+    """gives one class of the family (and so its subclasses) a non-comparable keyword-only init property `vnote` with a
+    default, and returns the rule rejecting one value of it: a replace() that only sets `vnote` to that value builds a
+    node with the ORIGINAL's id (detach_self has just freed it) before its class rejects it"""
+    from ..lib.universe import FieldSpec
+
+    mixins = {m for c in u.classes for m in c.mixins}
+    cands = [c for c in u.classes if c.name not in mixins]
+    if not cands or any(f.name == "vnote" for c in u.classes for f in c.own):
+        return None
+    c = rng.choice([x for x in cands if x.base is None] or cands)
+    if rng.random() < 0.5:
+        f = FieldSpec("vnote", "Prop", compare=False, init=True, kw_only=True, ptype="str", default=Con("VStr", ""), has_default=True)
+        bad = Con("VStr", rng.choice(["a", "test"]))
+    else:
+        f = FieldSpec("vnote", "Prop", compare=False, init=True, kw_only=True, ptype="int", default=Con("VInt", 0), has_default=True)
+        bad = Con("VInt", rng.choice([1, 2]))
+    c.own.append(f)
+    return norm(Con("VReject", c.name, "vnote", bad))
+
+
 def gen_rules(rng, u):
     """validations performed by generated classes in their own __post_init__, AFTER super().__post_init__() (so the node
     has its id and is registered when ValueError leaves): reject one value of one int/str init property (preferably
@@ -574,9 +595,12 @@ def gen_cases(rng, tier):
     per = 24 if tier == "quick" else 40
     for _ in range(n_uni):
         u = gen_universe(rng, n_roots=rng.choice([1, 2, 2]), max_levels=2, rich=rng.random() < 0.6)
+        # more than half of the class families validate in their own __post_init__ (late-failing constructions)
+        rules = []
+        if rng.random() < 0.6:
+            r0 = add_validated_field(rng, u) if rng.random() < 0.8 else None
+            rules = ([r0] if r0 is not None else []) + (gen_rules(rng, u) if r0 is None or rng.random() < 0.5 else [])
         uj = universe_to_json(u)
-        # about half of the class families validate in their own __post_init__ (late-failing constructions)
-        rules = gen_rules(rng, u) if rng.random() < 0.6 else []
         rj = rules_to_json(rules)
         for j in range(per):
             if tier == "quick":
